@@ -192,6 +192,31 @@ fn table() -> (BTreeMap<String, BTreeSet<u16>>, BTreeMap<String, u16>) {
     (tags, bares)
 }
 
+/// The place where language identifiers are stored: the language list of the
+/// summary information.  256 consecutive codes starting at `first` are set,
+/// read back, saved, reopened and read back again; every code is preserved.
+fn check_stored(first: u16) -> Check {
+    use msi::{Package, PackageType};
+    let codes: Vec<u16> = (0..256u32).map(|i| (first as u32 + i) as u16).collect();
+    let langs: Vec<Language> = codes.iter().map(|c| Language::from_code(*c)).collect();
+    let mut pkg = Package::create(PackageType::Installer, std::io::Cursor::new(Vec::new())).map_err(|e| Fail::new(format!("{P} unexpected-error op=Create"), e.to_string()))?;
+    pkg.summary_info_mut().set_languages(&langs);
+    let read = |pkg: &Package<std::io::Cursor<Vec<u8>>>| -> Vec<u16> { pkg.summary_info().languages().iter().map(|l| l.code()).collect() };
+    let now = read(&pkg);
+    if now != codes {
+        let at = now.iter().zip(codes.iter()).position(|(a, b)| a != b).unwrap_or(now.len().min(codes.len()));
+        return Err(Fail::new(format!("{P} stored-code-lost when=immediately"), format!("set_languages of the codes {first}..{} reads back {} codes; first difference at position {at}: {:?} instead of {:?}", first as u32 + 255, now.len(), now.get(at), codes.get(at))));
+    }
+    let cur = pkg.into_inner().map_err(|e| Fail::new(format!("{P} unexpected-error op=IntoInner"), e.to_string()))?;
+    let pkg = Package::open(std::io::Cursor::new(cur.into_inner())).map_err(|e| Fail::new(format!("{P} unexpected-error op=Reopen"), e.to_string()))?;
+    let after = read(&pkg);
+    if after != codes {
+        let at = after.iter().zip(codes.iter()).position(|(a, b)| a != b).unwrap_or(after.len().min(codes.len()));
+        return Err(Fail::new(format!("{P} stored-code-lost when=after-reopen"), format!("the language list {first}..{} reopens with {} codes; first difference at position {at}: {:?} instead of {:?}", first as u32 + 255, after.len(), after.get(at), codes.get(at))));
+    }
+    Ok(())
+}
+
 pub fn run(ctx: &Ctx) -> Report {
     let mut rep = Report::new(
         "exploration",
@@ -238,6 +263,16 @@ pub fn run(ctx: &Ctx) -> Report {
         }
     }
     st.sample(json!({"pair": [1033, "en-US"]}));
+
+    // 2b. every code through the summary information's language list
+    let firsts: Vec<u16> = (0..256u32).map(|i| (i * 256) as u16).collect();
+    let v = par_enumerate(ctx, "stored", &firsts, |f, st| {
+        st.eval();
+        st.nontrivial(&("stored", *f));
+        st.class("stored:256-codes");
+        check_stored(*f)
+    }, &mut st);
+    rep.push(v);
 
     // 3. tags: table tags and their perturbations
     let (tags, bares) = table();
@@ -343,6 +378,7 @@ pub fn replay(_ctx: &Ctx, doc: &J) -> Check {
     let case = &doc["case"];
     match kind {
         "code" => check_code(case.as_u64().unwrap_or(0) as u16),
+        "stored" => check_stored(case.as_u64().unwrap_or(0) as u16),
         "pair" => check_pair(case[0].as_u64().unwrap_or(0) as u16, case[1].as_str().unwrap_or("")),
         "tag" => {
             let (tags, bares) = table();
